@@ -1252,4 +1252,51 @@ theorem feature_roundtrip (fs : List GbFeat) (hk : ∀ f ∈ fs, FeatKeyOk f.key
     rw [ih (acc ++ [g]) (fun x hx => hg x (by simp [hx]))]
     simp
 
+/-! ## what the repaired writer accepts is exactly what the round trip needs -/
+
+theorem featCheck_ok (f : GbFeat) (h : featCheck f = true) :
+    FeatKeyOk f.key ∧ (∀ q ∈ f.quals, QKeyOk q.1) ∧ (∀ q ∈ f.quals, ∀ v, q.2 = some v → QValOk v) := by
+  unfold featCheck at h
+  simp only [Bool.and_eq_true, Bool.not_eq_true', decide_eq_true_eq, beq_iff_eq, List.all_eq_true] at h
+  obtain ⟨⟨⟨hne, hlen⟩, hst⟩, hq⟩ := h
+  refine ⟨⟨?_, hlen, ?_, ?_⟩, ?_, ?_⟩
+  · intro e; rw [e] at hne; simp at hne
+  · intro c hc; rw [← hst] at hc; exact gff_strip_head _ c hc
+  · intro c hc; rw [← hst] at hc; exact gff_strip_last _ c hc
+  · intro q hqm c hc
+    have := (hq q hqm).1 c hc
+    simp only [Bool.and_eq_true, Bool.not_eq_true', bne_iff_ne, ne_eq] at this
+    exact ⟨this.1.1, this.1.2, this.2⟩
+  · intro q hqm v hv
+    have := (hq q hqm).2
+    rw [hv] at this
+    unfold QValOk
+    intro hm
+    simp only [Bool.not_eq_true'] at this
+    have hc : v.contains '"' = true := by simpa using hm
+    rw [hc] at this; cases this
+
+/-- accepted by `set_annotation` ⇒ read back unchanged -/
+theorem feature_roundtrip_accepted (fs : List GbFeat) (lines : List Str) (hacc : printFeaturesE fs = .ok lines)
+    (hl : ∀ f ∈ fs, f.locs ≠ [] ∧ ∀ l ∈ f.locs, Expressible l) (hnd : ∀ f ∈ fs, (f.quals.map (·.1)).Nodup) :
+    parseFeatures lines = .ok fs := by
+  unfold printFeaturesE at hacc
+  split at hacc
+  · rename_i hall
+    injection hacc with hacc
+    subst hacc
+    rw [List.all_eq_true] at hall
+    exact feature_roundtrip fs (fun f hf => (featCheck_ok f (hall f hf)).1)
+      (fun f hf => ⟨(hl f hf).1, (hl f hf).2, (featCheck_ok f (hall f hf)).2.1, (featCheck_ok f (hall f hf)).2.2, hnd f hf⟩)
+  · cases hacc
+
+/-- … and refused otherwise: nothing is written for a feature list that fails the check -/
+theorem printFeaturesE_rejects (fs : List GbFeat) (h : ∃ f ∈ fs, featCheck f = false) :
+    printFeaturesE fs = .error .valueError := by
+  unfold printFeaturesE
+  obtain ⟨f, hf, hc⟩ := h
+  have : fs.all featCheck = false := by
+    rw [List.all_eq_false]; exact ⟨f, hf, by simp [hc]⟩
+  simp [this]
+
 end BiotiteModel.C12
